@@ -653,3 +653,422 @@ Section Step.
     Qed.
   End WithX.
 End Step.
+
+(* ------------------------------------------------------------------------------------------ *)
+(* a tree in normal form is a variant of itself *)
+
+Definition Rnft (t : node) (_ : nft t) : Prop := wvt t t.
+Definition Rnf (prev : sib) (l : list node) (_ : nf prev l) : Prop := wv prev l l.
+Definition Rnfk (l : list node) (_ : nfk l) : Prop := wvk l l.
+
+Theorem nft_wvt_refl : forall t (H : nft t), Rnft t H.
+Proof.
+  apply (nft_mut Rnft Rnf Rnfk); unfold Rnft, Rnf, Rnfk.
+  - intros n Hc Hr _. apply wvt_verbatim; assumption.
+  - intros ns name attrs ks Hd _ IH. apply wvt_tag; assumption.
+  - intros prev. destruct prev; [constructor| |constructor]. exact (wv_nil_afterN [] (Forall_nil _)).
+  - intros prev x r Hx _ IHx _ IHr. destruct prev.
+    + exact (wv_N_start [] x x r r (Forall_nil _) Hx IHx IHr).
+    + apply wv_N; [discriminate|assumption..].
+    + apply wv_N; [discriminate|assumption..].
+  - intros prev lead trail k r Hk Hp Hl Ht _ IHr.
+    apply (wv_X prev lead trail k k (optsp lead) (optsp trail) r r);
+      [exact Hk|apply inner_variant_refl; exact Hk|exact Hp|exact Hl|exact Ht|apply all_ws_optsp|apply all_ws_optsp
+      |intros _; destruct lead; reflexivity|intros _; destruct trail; reflexivity|exact IHr].
+  - intros r Hrn _ IHr. apply (wv_space [SP]); try assumption; [apply (all_ws_optsp true)|discriminate].
+  - apply (wvk_only_space [SP]); [apply (all_ws_optsp true)|discriminate].
+  - intros l _ IH. apply wvk_list. exact IH.
+Qed.
+
+(* ------------------------------------------------------------------------------------------ *)
+(* _serialize_text on a text that is one space *)
+
+Lemma lstrip_all_ws w : all_ws w -> lstrip w = [].
+Proof. induction 1 as [|c r Hc _ IH]; [reflexivity|]. cbn [lstrip]. rewrite Hc. exact IH. Qed.
+Lemma rstrip_all_ws w : all_ws w -> rstrip w = [].
+Proof.
+  intros H. unfold rstrip. rewrite lstrip_all_ws; [reflexivity|].
+  unfold all_ws in *. rewrite Forall_forall in *. intros c Hc. apply H. apply in_rev. exact Hc.
+Qed.
+
+Section SpaceText.
+  Variable ind : str.
+  Variable width : Z.
+  Variable req : rpath -> Z -> option Z.
+  Hypothesis ind_ws : ws_indent ind = true.
+
+  Lemma space_shape_aux (cw : str) : rstrip cw = [] -> ws_indent cw = true -> forall st (c1 gt c2 : bool),
+    exists w, ws_indent w = true /\
+      (if c1 then emit_raw st (rstrip cw ++ NL)
+       else if gt then emit_raw st (if c2 then rstrip cw ++ NL else cw) else emit_raw st NL) = emit_raw st w /\
+      (w = NL \/ w = cw).
+  Proof.
+    intros Er Hw st c1 gt c2. rewrite Er. destruct c1; [exists NL; auto|]. destruct gt; [|exists NL; auto].
+    destruct c2; [exists NL; auto|exists cw; auto].
+  Qed.
+
+  Lemma w_text_space_shape L st rp prev next foll :
+    exists w, ws_indent w = true /\ w_text ind width req L st rp prev [SP] next foll = emit_raw st w /\
+              (w_off st <> 0%Z -> w <> []).
+  Proof.
+    unfold w_text. cbv zeta.
+    assert (E : esc_text (collapse [SP]) = [SP]) by (vm_compute; reflexivity). rewrite !E.
+    assert (El : lstrip [SP] = []) by (vm_compute; reflexivity). rewrite !El. rewrite !app_nil_r.
+    replace (str_eqb [SP] [SP]) with true by reflexivity.
+    destruct (w_off st =? 0)%Z eqn:E0.
+    - destruct (space_shape_aux (indent ind L)
+                  ltac:(apply rstrip_all_ws; apply all_ws_ws_indent; apply ws_indent_indent; exact ind_ws)
+                  (ws_indent_indent ind ind_ws L) st
+                  ((available ind width L st =? elen (rstrip [SP]))%Z && legit_after (Text [SP]) next)%bool
+                  (available ind width L st >? elen [SP])%Z
+                  (match next with Some _ => false | None => true end
+                   || match next with
+                      | Some y => match foll with
+                                  | Some f => legit_before (Some (Text [SP])) y && req_is_none req f (available ind width L st - elen (indent ind L))
+                                  | None => false end
+                      | None => false end)%bool) as (w & Hw & Ew & _).
+      exists w. split; [exact Hw|]. split; [exact Ew|]. apply Z.eqb_eq in E0. intros H. congruence.
+    - destruct (space_shape_aux [SP] ltac:(vm_compute; reflexivity) eq_refl st
+                  ((available ind width L st =? elen (rstrip [SP]))%Z && legit_after (Text [SP]) next)%bool
+                  (available ind width L st >? elen [SP])%Z
+                  (match next with Some _ => false | None => true end
+                   || match next with
+                      | Some y => match foll with
+                                  | Some f => legit_before (Some (Text [SP])) y && req_is_none req f (available ind width L st - elen [SP])
+                                  | None => false end
+                      | None => false end)%bool) as (w & Hw & Ew & Hc).
+      exists w. split; [exact Hw|]. split; [exact Ew|]. intros _. destruct Hc as [-> | ->]; discriminate.
+  Qed.
+
+  Lemma w_text_space L st rp prev next foll p : winv st p prev (Some (Text [SP])) ->
+    match next with Some y => is_text y = false | None => True end ->
+    exists w', sees (fst (w_text ind width req L st rp prev [SP] next foll)) w' /\ all_ws w' /\
+      winv (snd (w_text ind width req L st rp prev [SP] next foll)) (p ++ w') (Some (Text [SP])) next /\ p ++ w' <> [].
+  Proof.
+    intros Hi Hn. destruct (w_text_space_shape L st rp prev next foll) as (w & Hw & -> & Hw0).
+    destruct (emit_ws_step st p prev (Some (Text [SP])) w Hi Hw) as (w' & E & Hw' & Hs & Hi' & Hk).
+    { right. cbn [legal]. destruct prev; cbn [legit_before starts_ws]; [exact is_ws_SP|reflexivity]. }
+    destruct (emit_raw st w) as [c st']. cbn [fst snd] in *. subst c.
+    exists w'. split; [exact Hs|]. split; [apply all_ws_ws_indent; exact Hw'|].
+    destruct Hi' as (A1 & A2 & A3 & _). destruct Hi as (B1 & _ & B3 & _). split.
+    - repeat split; try assumption. intros _. destruct next as [y|]; [|reflexivity]. cbn [legal].
+      destruct y; try discriminate; cbn [legit_before]; vm_compute; reflexivity.
+    - destruct (Z.eq_dec (w_off st) 0) as [E0|E0].
+      + specialize (B3 E0). destruct p; [congruence|discriminate].
+      + rewrite Hk by lia. specialize (Hw0 E0). destruct p; [exact Hw0|discriminate].
+  Qed.
+End SpaceText.
+
+(* ------------------------------------------------------------------------------------------ *)
+(* the offset never becomes negative *)
+
+Lemma emit_raw_nonneg st d : (0 <= w_off st)%Z -> (0 <= w_off (snd (emit_raw st d)))%Z.
+Proof. intros H. unfold emit_raw. pose proof (emit_nonneg st d H) as H1. destruct (emit st d). exact H1. Qed.
+
+Section NonNeg.
+  Variable ind : str.
+  Variable width : Z.
+  Variable req : rpath -> Z -> option Z.
+
+  Lemma write_lines_nonneg L lines : forall st, (0 <= w_off st)%Z -> (0 <= w_off (snd (write_lines ind L st lines)))%Z.
+  Proof.
+    induction lines as [|l r IH]; intros st Ho; [exact Ho|]. destruct r as [|l2 r'].
+    - cbn [write_lines]. destruct (null l); [exact Ho|apply emit_raw_nonneg; exact Ho].
+    - rewrite (write_lines_cons ind L st l (l2 :: r')) by discriminate.
+      assert (H1 : (0 <= w_off (snd (if null l then emit_raw st NL else emit_raw st (indent ind L ++ l ++ NL))))%Z)
+        by (destruct (null l); apply emit_raw_nonneg; exact Ho).
+      destruct (if null l then emit_raw st NL else emit_raw st (indent ind L ++ l ++ NL)) as [c st1]. cbn [snd] in H1.
+      specialize (IH st1 H1). destruct (write_lines ind L st1 (l2 :: r')) as [cs st2]. exact IH.
+  Qed.
+
+  Lemma text_over_lines_nonneg L st rp content lb la is_last next_sib : (0 <= w_off st)%Z ->
+    (0 <= w_off (snd (text_over_lines ind width req L st rp content lb la is_last next_sib)))%Z.
+  Proof.
+    intros Ho. unfold text_over_lines.
+    assert (Hfin : forall pre st0 lines, (0 <= w_off st0)%Z ->
+              (0 <= w_off (snd (let '(cs, st') := write_lines ind L st0 lines in (pre ++ cs, st'))))%Z).
+    { intros pre st0 lines H0. pose proof (write_lines_nonneg L lines st0 H0) as H1. destruct (write_lines ind L st0 lines). exact H1. }
+    destruct (w_off st =? 0)%Z; [apply Hfin; exact Ho|].
+    match goal with |- context [if ?c then _ else _] => destruct c end; [apply Hfin; exact Ho|].
+    pose proof (emit_raw_nonneg st) as H1.
+    match goal with |- context [emit_raw st ?f] => specialize (H1 f Ho); destruct (emit_raw st f) as [c st1] end.
+    cbn [snd] in H1. match goal with |- context [if null ?c then _ else _] => destruct (null c) end; [exact H1|apply Hfin; exact H1].
+  Qed.
+
+  Lemma w_text_nonneg L st rp prev s next foll : (0 <= w_off st)%Z ->
+    (0 <= w_off (snd (w_text ind width req L st rp prev s next foll)))%Z.
+  Proof.
+    intros Ho. unfold w_text. cbv zeta.
+    repeat match goal with |- context [if ?c then _ else _] =>
+      match c with
+      | context [if _ then _ else _] => fail 1
+      | _ => destruct c
+      end end; try (apply emit_raw_nonneg; exact Ho); apply text_over_lines_nonneg; exact Ho.
+  Qed.
+End NonNeg.
+
+(* ------------------------------------------------------------------------------------------ *)
+(* the class of trees the node-level theorem below covers: no mixed content - an element holds either one text, or
+   only non-text nodes, possibly separated by single spaces (what reducing a conventionally laid out document
+   gives); elements under xml:space="preserve" are unconstrained *)
+
+Definition is_sp (x : node) : bool := match x with Text s => str_eqb s [SP] | _ => false end.
+Definition nsp (x : node) : bool := (negb (is_text x) || is_sp x)%bool.
+Fixpoint no_mixed (n : node) : bool :=
+  match n with
+  | Tag _ _ attrs kids =>
+      (directive attrs false
+       || ((match kids with [Text _] => true | _ => forallb nsp kids end) && forallb no_mixed kids))%bool
+  | _ => true
+  end.
+Definition cl_ok (prev : sib) (l : list node) : Prop :=
+  (prev = Start /\ exists s, l = [Text s]) \/ forallb nsp l = true.
+
+Section Main.
+  Variable ind : str.
+  Variable align : bool.
+  Variable width : Z.
+  Variable req : rpath -> Z -> option Z.
+  Hypothesis ind_ws : ws_indent ind = true.
+  Hypothesis ind_nolf : no_lf ind = true.
+  Hypothesis width_pos : (1 <= width)%Z.
+
+  Notation wtag := (w_tag ind align width req).
+  Notation wkids := (w_kids ind width req wtag).
+
+  Definition closing_of (L : nat) (st : wst) : list chunk * wst :=
+    if has_ind ind then emit_raw st (indent ind L) else ([], st).
+  Definition kfn (L : nat) (rp : rpath) (aft : option rpath) (kids : list node) (st : wst) : list chunk * wst :=
+    let '(c0, st) := emit_raw st NL in
+    let '(cs, st) := wkids (S L) rp aft (length kids) st O None kids in
+    let '(c1, st) := closing_of L st in
+    (c0 ++ cs ++ c1, st).
+
+  Lemma w_tag_unfold L st rp aft ns name attrs kids :
+    wtag L st rp aft (Tag ns name attrs kids) =
+    if directive attrs false then tplain st (Tag ns name attrs kids)
+    else tag_with st ns name attrs (attr_pieces ind align L (attrs_data attrs)) (negb (null kids)) (kfn L rp aft kids).
+  Proof. reflexivity. Qed.
+
+  Lemma wk_nil L pp aftp nk st i prev : wkids L pp aftp nk st i prev [] = ([], st).
+  Proof. reflexivity. Qed.
+  Lemma wk_cons L pp aftp nk st i prev x r :
+    wkids L pp aftp nk st i prev (x :: r) =
+    let '(cs, st1) := match x with
+                      | Text s => w_text ind width req L st (i :: pp) prev s (hd_error r)
+                                         (match r with [] => aftp | _ => Some (S i :: pp) end)
+                      | _ => w_node ind width req wtag L st (i :: pp) prev (hd_error r)
+                                    (match r with [] => aftp | _ => Some (S i :: pp) end) x
+                      end in
+    let '(cs2, st2) := wkids L pp aftp nk st1 (S i) (Some x) r in (cs ++ cs2, st2).
+  Proof. reflexivity. Qed.
+
+  Lemma closing_spec L st : (0 <= w_off st)%Z ->
+    exists w, all_ws w /\ sees (fst (closing_of L st)) w /\ (0 <= w_off (snd (closing_of L st)))%Z.
+  Proof.
+    intros Ho. unfold closing_of. destruct (has_ind ind).
+    - pose proof (emit_ws_indent st (indent ind L) (ws_indent_indent ind ind_ws L)) as Hw.
+      pose proof (emit_nonneg st (indent ind L) Ho) as Hn. unfold emit_raw.
+      destruct (emit st (indent ind L)) as [d st']. cbn [fst snd] in *.
+      exists d. split; [apply all_ws_ws_indent; exact Hw|]. split; [|exact Hn].
+      pose proof (sees_raw d) as Hs. rewrite (unesc_ws d Hw) in Hs. exact Hs.
+    - exists []. split; [constructor|]. split; [apply sees_nil|exact Ho].
+  Qed.
+
+  (* the only child of an element, a text with content, at the start of a line *)
+  Lemma only_text_step L st rp aft k : core k -> w_off st = 0%Z ->
+    exists k', sees (fst (w_text ind width req L st rp None k None aft)) (indent ind L ++ k' ++ NL) /\ inner_variant k k'.
+  Proof.
+    intros Hk Ho.
+    destruct (text_only_lines ind width req ind_nolf width_pos L st rp aft k Hk Ho) as (ls & E & Hne & HF & Hj & Ec).
+    rewrite Ec. destruct (lines_unesc ls k Hne Hj) as (ls' & El & Ej' & Hne').
+    assert (HF' : Forall edge_clean ls').
+    { pose proof Hk as (Hh & Hl & Hc). apply lines_edge_clean; [exact Hne'| | |]; rewrite Ej'; [|exact Hh|exact Hl].
+      apply collapse_fix_naw. exact Hc. }
+    exists (py_join (NL ++ indent ind L) ls'). split.
+    - rewrite <- (concat_lines (indent ind L) ls' Hne'). rewrite El. clear - ind_ws.
+      induction ls' as [|l' r IH]; [apply sees_nil|]. cbn [map concat].
+      change (KRaw (text_line ind L (esc_text l')) :: map (fun l => KRaw (text_line ind L l)) (map esc_text r))
+        with ([KRaw (text_line ind L (esc_text l'))] ++ map (fun l => KRaw (text_line ind L l)) (map esc_text r)).
+      apply sees_app; [|exact IH].
+      pose proof (sees_raw (text_line ind L (esc_text l'))) as Hs. unfold text_line in Hs.
+      rewrite unesc_ws_prefix in Hs by (apply ws_indent_indent; exact ind_ws). rewrite unesc_esc_app in Hs. exact Hs.
+    - apply (lines_inner_variant k (NL ++ indent ind L) ls' Hk Ej' HF' Hne'); [|discriminate].
+      apply all_ws_app; [apply all_ws_NL|apply all_ws_indent; exact ind_ws].
+  Qed.
+
+  (* ---------------------------------------------------------------------------------------- *)
+  (* the node-level induction *)
+
+  Definition OUTw (out : list chunk * wst) (cf : wst -> list chunk) : list node :=
+    Nv (map seen (fst out ++ cf (snd out))).
+  Definition cf_ok (cf : wst -> list chunk) : Prop := forall s, exists w, all_ws w /\ sees (cf s) w.
+
+  Lemma OUT_node bs b c als a rest : sees bs b -> sees als a -> is_text (seen c) = false ->
+    Nv (map seen (bs ++ [c] ++ als ++ rest)) = ctext b (mseen c :: ctext a (Nv (map seen rest))).
+  Proof.
+    intros Hb Ha Hc. rewrite map_app, Hb. cbn [app map]. rewrite (Nv_cons_nontext _ _ Hc). rewrite map_app, Ha. reflexivity.
+  Qed.
+
+  Lemma OUT_cf cf st : cf_ok cf -> exists w, all_ws w /\ Nv (map seen (cf st)) = txt w.
+  Proof.
+    intros H. destruct (H st) as (w & Hw & Hs). exists w. split; [exact Hw|].
+    rewrite <- (app_nil_r (map seen (cf st))), Hs. cbn [Nv ctext]. apply app_nil_r.
+  Qed.
+
+  Definition Wnft (t : node) (_ : nft t) : Prop :=
+    no_mixed t = true -> forall L st rp aft, (0 <= w_off st)%Z ->
+      wvt t (mseen (fst (wtag L st rp aft t))) /\ is_text (seen (fst (wtag L st rp aft t))) = false /\
+      (0 < w_off (snd (wtag L st rp aft t)))%Z.
+
+  Definition Wnf (prev : sib) (l : list node) (_ : nf prev l) : Prop :=
+    cl_ok prev l -> forallb no_mixed l = true ->
+    forall L pp aftp nk st i pn p cf, cf_ok cf -> winv st p pn (hd_error l) ->
+      (0 <= w_off (snd (wkids L pp aftp nk st i pn l)))%Z /\
+      match prev with
+      | Start => pn = None -> w_off st = 0%Z -> l <> [] -> wv Start l (ctext p (OUTw (wkids L pp aftp nk st i pn l) cf))
+      | AfterN => forall x, pn = Some x -> is_text x = false -> wv AfterN l (ctext p (OUTw (wkids L pp aftp nk st i pn l) cf))
+      | AfterX => forall s, pn = Some (Text s) ->
+                  exists q r', OUTw (wkids L pp aftp nk st i pn l) cf = txt q ++ r' /\ all_ws q /\ starts_nontext r' /\
+                               wv AfterX l r' /\ (l <> [] -> q <> [] -> ends_ws s = true)
+      end.
+
+  Definition Wnfk (l : list node) (_ : nfk l) : Prop :=
+    l <> [] -> (match l with [Text _] => True | _ => forallb nsp l = true end) -> forallb no_mixed l = true ->
+    forall L rp aft st, (0 < w_off st)%Z ->
+      wvk l (Nv (map seen (fst (kfn L rp aft l st)))) /\ (0 <= w_off (snd (kfn L rp aft l st)))%Z.
+
+  Lemma nf_afterX_hd r : nf AfterX r -> match hd_error r with Some y => is_text y = false | None => True end.
+  Proof. intros H. inversion H; subst; cbn; try exact I; try assumption; congruence. Qed.
+
+  Lemma cl_ok_tail_N prev x r : cl_ok prev (x :: r) -> is_text x = false -> cl_ok AfterN r.
+  Proof.
+    intros [[_ (s & E)]|H] Hx; [injection E as -> _; discriminate|]. right. cbn [forallb] in H. apply andb_prop in H as [_ H]. exact H.
+  Qed.
+
+  Theorem wrap_variant_mut : forall t (H : nft t), Wnft t H.
+  Proof.
+    apply (nft_mut Wnft Wnf Wnfk); unfold Wnft, Wnf, Wnfk.
+    - (* verbatim *)
+      intros n Hc Hr Hk _ L st rp aft Ho.
+      assert (E : wtag L st rp aft n = tplain st n).
+      { destruct n as [ns name attrs kids| | |]; try reflexivity. rewrite w_tag_unfold, Hk. reflexivity. }
+      rewrite E.
+      assert (Hm : merged n = true) by (unfold clean in Hc; apply andb_prop in Hc as [H _]; exact H).
+      assert (Hx : is_text n = false) by (destruct n; try reflexivity; destruct Hk).
+      destruct (tplain_ok n Hm st Ho ltac:(congruence)) as (E1 & _ & E2).
+      unfold mseen. rewrite E1. rewrite (merge_id n Hc). split; [apply wvt_verbatim; assumption|]. split; [exact Hx|exact (E2 Hx)].
+    - (* element *)
+      intros ns name attrs ks Hd Hk IH Hnm L st rp aft Ho. rewrite w_tag_unfold, Hd.
+      cbn [no_mixed] in Hnm. rewrite Hd in Hnm. cbn [orb] in Hnm. apply andb_prop in Hnm as [Hcls Hnmk].
+      destruct (tag_with_spec st ns name attrs (attr_pieces ind align L (attrs_data attrs)) (negb (null ks)) (kfn L rp aft ks) Ho)
+        as (st3 & H3 & Hf & Ht').
+      destruct ks as [|k0 kr].
+      + destruct (Hf eq_refl) as [E1 E2]. unfold mseen. rewrite E1. split; [|split; [reflexivity|exact E2]].
+        apply wvt_tag; [exact Hd|]. apply wvk_list. constructor.
+      + destruct (Ht' eq_refl) as [E1 E2].
+        destruct (IH ltac:(discriminate)) with (L := L) (rp := rp) (aft := aft) (st := st3) as [Hv Hn]; [|exact Hnmk|exact H3|].
+        { destruct k0; try exact Hcls. destruct kr; [exact I|exact Hcls]. }
+        unfold mseen. rewrite E1. split; [|split; [reflexivity|exact (E2 Hn)]].
+        change (merge_tree (Tag ns name attrs (map seen (fst (kfn L rp aft (k0 :: kr) st3)))))
+          with (Tag ns name attrs (Nv (map seen (fst (kfn L rp aft (k0 :: kr) st3))))).
+        apply wvt_tag; [exact Hd|exact Hv].
+    - (* nil *)
+      intros prev _ _ L pp aftp nk st i pn p cf Hcf Hi. rewrite wk_nil. cbn [fst snd]. split; [apply Hi|].
+      unfold OUTw. cbn [fst snd app]. destruct (OUT_cf cf st Hcf) as (w & Hw & Ew). rewrite Ew.
+      destruct prev.
+      + intros _ _ H. congruence.
+      + intros x _ _. rewrite <- (app_nil_r (txt w)). rewrite ctext_txt by exact I. rewrite app_nil_r.
+        apply wv_nil_afterN. apply all_ws_app; [apply Hi|exact Hw].
+      + intros s _. exists w, []. rewrite app_nil_r. split; [reflexivity|]. split; [exact Hw|]. split; [exact I|]. split; [constructor|congruence].
+    - (* a non-text child *)
+      intros prev x r Hx Hnx IHx Hnr IHr Hcl Hnm L pp aftp nk st i pn p cf Hcf Hi.
+      cbn [forallb] in Hnm. apply andb_prop in Hnm as [Hnmx Hnmr].
+      destruct (nft_clean_lfok x Hnx) as [Hcx Hlx]. pose proof (nft_wvt_refl x Hnx) as Hrx.
+      rewrite wk_cons.
+      set (aft' := match r with [] => aftp | _ => Some (S i :: pp) end).
+      replace (match x with
+               | Text s => w_text ind width req L st (i :: pp) pn s (hd_error r) aft'
+               | _ => w_node ind width req wtag L st (i :: pp) pn (hd_error r) aft' x
+               end) with (w_node ind width req wtag L st (i :: pp) pn (hd_error r) aft' x)
+        by (destruct x; try reflexivity; discriminate).
+      destruct (w_node_spec ind width req ind_ws x Hx Hcx Hlx Hrx wtag L (i :: pp) aft'
+                  (fun st1 H1 => IHx Hnmx L st1 (i :: pp) aft' H1) st p pn (hd_error r) Hi)
+        as (bs & b & c & als & a & Ecs & Hsb & Hb & Hleg & Hsa & Hia & Hv & Htc).
+      destruct (w_node ind width req wtag L st (i :: pp) pn (hd_error r) aft' x) as [cs st1]. cbn [fst snd] in *. subst cs.
+      specialize (IHr (cl_ok_tail_N _ _ _ Hcl Hx) Hnmr L pp aftp nk st1 (S i) (Some x) a cf Hcf Hia).
+      destruct (wkids L pp aftp nk st1 (S i) (Some x) r) as [cs2 st2]. cbn [fst snd] in *.
+      destruct IHr as [Hn2 IHr]. split; [exact Hn2|].
+      assert (Eo : OUTw ((bs ++ [c] ++ als) ++ cs2, st2) cf
+                   = ctext b (mseen c :: ctext a (OUTw (cs2, st2) cf))).
+      { unfold OUTw. cbn [fst snd]. rewrite <- !app_assoc. apply OUT_node; assumption. }
+      rewrite Eo. specialize (IHr x eq_refl Hx).
+      assert (Hmc : is_text (mseen c) = false) by (unfold mseen; rewrite merge_is_text; exact Htc).
+      rewrite (ctext_nontext b) by (cbn [starts_nontext]; exact Hmc).
+      destruct prev.
+      + intros _ _ _. rewrite ctext_txt by (cbn [starts_nontext]; exact Hmc).
+        apply wv_N_start; [apply all_ws_app; [apply Hi|exact Hb]|exact Hx|exact Hv|exact IHr].
+      + intros x0 Epn Hx0. subst pn.
+        assert (Epb : p ++ b = []).
+        { destruct (p ++ b) eqn:E; [reflexivity|]. exfalso.
+          assert (Hl : legal (Some x0) (Some x) = true) by (apply Hleg; discriminate).
+          cbn [legal legit_before] in Hl. destruct x; try discriminate; destruct x0; discriminate. }
+        apply app_eq_nil in Epb as [-> ->]. cbn [txt null app]. rewrite ctext_nil.
+        apply wv_N; [discriminate|exact Hx|exact Hv|exact IHr].
+      + intros s Epn. subst pn. eexists. eexists. split; [reflexivity|]. split; [exact Hb|]. split; [cbn [starts_nontext]; exact Hmc|].
+        split; [apply wv_N; [discriminate|exact Hx|exact Hv|exact IHr]|].
+        intros _ Hq. assert (Hl : legal (Some (Text s)) (Some x) = true) by (apply Hleg; destruct p; [exact Hq|discriminate]).
+        cbn [legal legit_before] in Hl. destruct x; try discriminate; exact Hl.
+    - (* a text with content: in this class the only child of its parent *)
+      intros prev lead trail k r Hk Hp Hl Ht Hnr IHr Hcl Hnm L pp aftp nk st i pn p cf Hcf Hi.
+      destruct Hcl as [[-> (s0 & Es)]|Hcl].
+      2:{ exfalso. cbn [forallb nsp is_text is_sp negb orb] in Hcl. apply andb_prop in Hcl as [Hcl _].
+          rewrite (core_not_sp lead k trail Hk) in Hcl. discriminate. }
+      injection Es as _ ->. specialize (Hl eq_refl). specialize (Ht eq_refl). subst lead trail.
+      cbn [optsp app]. rewrite app_nil_r. rewrite wk_cons. cbn [hd_error].
+      pose proof (w_text_nonneg ind width req L st (i :: pp) pn k None aftp (proj1 Hi)) as Hnn.
+      destruct (w_text ind width req L st (i :: pp) pn k None aftp) as [cs st1] eqn:Ew. rewrite wk_nil. cbn [fst snd] in *.
+      split; [exact Hnn|].
+      intros Epn Ho _. subst pn.
+      destruct (only_text_step L st (i :: pp) aftp k Hk Ho) as (k' & Hs & Hv). rewrite Ew in Hs. cbn [fst] in Hs.
+      unfold OUTw. cbn [fst snd]. rewrite app_nil_r. rewrite map_app, Hs.
+      destruct (OUT_cf cf st1 Hcf) as (w & Hw & Ecf). rewrite Ecf.
+      rewrite <- (app_nil_r (txt w)). rewrite ctext_txt by exact I. rewrite app_nil_r.
+      rewrite txt_nonnull by (rewrite <- (app_assoc (indent ind L ++ k' ++ NL)); apply null_mid; exact (proj1 Hv)).
+      cbn [ctext]. rewrite <- !app_assoc. rewrite (app_assoc p).
+      change k with ([] ++ k) at 1. rewrite <- (app_nil_r k) at 1. change (@nil char) with (optsp false) at 1 2.
+      apply (wv_X Start false false k k' (p ++ indent ind L) (NL ++ w) [] []);
+        [exact Hk|exact Hv|discriminate|reflexivity|reflexivity| | |congruence|congruence|constructor].
+      + apply all_ws_app; [apply Hi|apply all_ws_indent; exact ind_ws].
+      + apply all_ws_app; [apply all_ws_NL|exact Hw].
+    - (* a single space between two non-text siblings *)
+      intros r Hrn Hnr IHr Hcl Hnm L pp aftp nk st i pn p cf Hcf Hi.
+      destruct Hcl as [[E _]|Hcl]; [discriminate|]. cbn [forallb] in Hcl, Hnm.
+      apply andb_prop in Hcl as [_ Hclr]. apply andb_prop in Hnm as [_ Hnmr].
+      rewrite wk_cons.
+      set (aft' := match r with [] => aftp | _ => Some (S i :: pp) end).
+      destruct (w_text_space ind width req ind_ws L st (i :: pp) pn (hd_error r) aft' p Hi (nf_afterX_hd r Hnr))
+        as (w' & Hs & Hw' & Hi' & Hne).
+      destruct (w_text ind width req L st (i :: pp) pn [SP] (hd_error r) aft') as [cs st1]. cbn [fst snd] in *.
+      specialize (IHr (or_intror Hclr) Hnmr L pp aftp nk st1 (S i) (Some (Text [SP])) (p ++ w') cf Hcf Hi').
+      destruct (wkids L pp aftp nk st1 (S i) (Some (Text [SP])) r) as [cs2 st2]. cbn [fst snd] in *.
+      destruct IHr as [Hn2 IHr]. split; [exact Hn2|]. intros x -> Hx.
+      destruct (IHr [SP] eq_refl) as (q & r' & Eo & Hq & Hst & Hwv & _).
+      unfold OUTw in *. cbn [fst snd] in *. rewrite <- app_assoc, map_app, Hs. rewrite Eo.
+      rewrite ctext_app. rewrite ctext_txt by exact Hst.
+      rewrite txt_nonnull by (destruct (p ++ w'); [congruence|reflexivity]).
+      apply wv_space; [|destruct (p ++ w'); [congruence|discriminate]|exact Hrn|exact Hwv].
+      apply all_ws_app; [apply all_ws_app; [apply Hi|exact Hw']|exact Hq].
+    - (* an element holding one space *)
+      intros _ _ _ L rp aft st Ho. unfold kfn.
+      destruct (emit_ws_step st [] None (Some (Text [SP])) NL (winv_pos st _ _ Ho) ws_indent_NL (or_intror eq_refl))
+        as (w0 & E0 & Hw0 & Hs0 & Hi0 & Hk0).
+      destruct (emit_raw st NL) as [c0 st1]. cbn [fst snd] in *. subst c0. cbn [length].
+      rewrite wk_cons, wk_nil. cbn [hd_error].
+      destruct (w_text_space ind width req ind_ws (S L) st1 [0%nat]%list None None aft ([] ++ w0)) as (w' & Hs & Hw' & Hi' & Hne).
+      { admit. }
+      { exact I. }
+      admit.
+    - admit.
+  Admitted.
+End Main.
